@@ -77,8 +77,9 @@ func RunEnumPair(w *World, r *Report, pkgRel, reader, writer string) {
 				if len(p.Preds) == 1 {
 					q := p.Preds[0]
 					if ifi, ok := q.Instrs[len(q.Instrs)-1].(*ssa.If); ok {
-						if m, ok := bitTestMask(ifi.Cond); ok {
-							if q.Succs[0] == p {
+						// (x & K) != 0 on its true edge, or (x & K) == 0 on its false edge: the bits are set
+						if m, setOnTrue, ok := bitTestMask(ifi.Cond); ok {
+							if (q.Succs[0] == p) == setOnTrue {
 								mask = m
 							} else {
 								mask = 0
@@ -198,31 +199,33 @@ func RunEnumPair(w *World, r *Report, pkgRel, reader, writer string) {
 	}
 }
 
-// bitTestMask recognises (x & K) != 0 and returns K.
-func bitTestMask(v ssa.Value) (int64, bool) {
-	cmp, ok := v.(*ssa.BinOp)
-	if !ok || cmp.Op != token.NEQ {
-		return 0, false
+// bitTestMask recognises (x & K) != 0 (bits set on the true edge) and
+// (x & K) == 0 (bits set on the false edge) and returns K.
+func bitTestMask(v ssa.Value) (mask int64, setOnTrue bool, ok bool) {
+	cmp, isB := v.(*ssa.BinOp)
+	if !isB || (cmp.Op != token.NEQ && cmp.Op != token.EQL) {
+		return 0, false, false
 	}
+	setOnTrue = cmp.Op == token.NEQ
 	a, z := cmp.X, cmp.Y
 	if c, ok := a.(*ssa.Const); ok && c.Value != nil && constant.Sign(c.Value) == 0 {
 		a, z = z, a
 	}
 	zc, ok := z.(*ssa.Const)
 	if !ok || zc.Value == nil || constant.Sign(zc.Value) != 0 {
-		return 0, false
+		return 0, false, false
 	}
 	and, ok := a.(*ssa.BinOp)
 	if !ok || and.Op != token.AND {
-		return 0, false
+		return 0, false, false
 	}
 	for _, op := range []ssa.Value{and.Y, and.X} {
 		if kc, ok := op.(*ssa.Const); ok && kc.Value != nil {
 			k, ok := constant.Int64Val(kc.Value)
-			return k, ok
+			return k, setOnTrue, ok
 		}
 	}
-	return 0, false
+	return 0, false, false
 }
 
 func enumName(cs []*types.Const, v int64) string {
